@@ -272,6 +272,15 @@ def worker(job):
     root = logging.getLogger()
     root.handlers[:] = [_FormatHandler(part)]
     root.setLevel(logging.WARNING)
+    debug_logging = bool(job.get('debug_logging') or (job.get('replay') or {}).get('debug_logging'))
+    if debug_logging:
+        # the crawler run with --debug: every log call is formatted by a stock stream handler (which lets a
+        # RecursionError through to the caller, as logging does)
+        import io
+        sink = io.StringIO()
+        root.handlers[:] = [logging.StreamHandler(sink)]
+        root.setLevel(logging.DEBUG)
+        part.count('jobs_with_debug_logging')
     signal.signal(signal.SIGALRM, _on_alarm)
     mods = (URLInfo, wurl, sutil)
     if 'replay' in job:
@@ -291,7 +300,7 @@ def worker(job):
         encoding = 'utf-8' if rng.random() < 0.5 else rng.choice(encs)
         seen_enc.add(encoding)
         base = rng.choice(BASES) if rng.random() < 0.8 else gen_text(rng)
-        replay = {'text': text, 'encoding': encoding, 'base': base}
+        replay = {'text': text, 'encoding': encoding, 'base': base, 'debug_logging': debug_logging}
         part.evaluations += 1
         exercise(mods, text, encoding, base, part, replay)
         if i % 12 == 0:
@@ -320,7 +329,7 @@ def main():
     else:
         total = int((6000000 if check.thorough else 120000) * check.scale)
         nj = check.jobs * (8 if check.thorough else 1)
-        jobs = [{'seed': check.seed * 1000003 + i, 'n': total // nj} for i in range(nj)]
+        jobs = [{'seed': check.seed * 1000003 + i, 'n': total // nj, 'debug_logging': i % 4 == 3} for i in range(nj)]
         res = par.run_jobs(target, jobs, check.jobs, timeout=7200 if check.thorough else 900)
     encs = set()
     suspects = []
